@@ -115,6 +115,26 @@ def run_case(c) -> dict:
                 f[f"C13:rfc7638.thumbprint-differs:{dg}:{tag}"] = f"rfc7638.thumbprint(dict, fields, {dg!r}) != reference"
     except Exception as e:
         f[f"C13:rfc7638.thumbprint-raises:{tag}:{type(e).__name__}"] = str(e)
+    # a key generated with a caller-chosen kid AND auto_kid=True keeps the caller's kid (a kid that is present is never replaced);
+    # without one it gets its thumbprint
+    try:
+        from joserfc.jwk import OctKey, RSAKey, ECKey, OKPKey, JWKRegistry
+        kcls = {"oct": OctKey, "RSA": RSAKey, "EC": ECKey, "OKP": OKPKey}[ref["kty"]]
+        arg = {"oct": 128, "RSA": 1024}.get(ref["kty"], ref.get("crv"))
+        for how, gen in (("class", lambda p: kcls.generate_key(arg, p, auto_kid=True)), ("class-public", lambda p: kcls.generate_key(arg, p, False, True)),
+                         ("registry", lambda p: JWKRegistry.generate_key(ref["kty"], arg, p, True, True))):
+            if how == "class-public" and ref["kty"] == "oct":
+                continue
+            if ref["kty"] == "RSA" and c["shuffle"] % 4:
+                continue      # RSA generation is slow: one case in four
+            g = gen({"kid": "chosen-at-generation", "use": "sig"})
+            if g.kid != "chosen-at-generation" or g.as_dict().get("kid") != "chosen-at-generation":
+                f[f"C13:existing-kid-overwritten:generate:{how}:{tag}"] = f"generate_key(..., parameters with kid, auto_kid=True) has kid {g.kid!r}"
+            g2 = gen(None)
+            if g2.kid != g2.thumbprint():
+                f[f"C13:auto-kid-not-thumbprint:generate:{how}:{tag}"] = f"auto kid {g2.kid!r} != thumbprint {g2.thumbprint()!r}"
+    except Exception as e:
+        f[f"C13:generate-with-kid-raises:{tag}:{type(e).__name__}"] = str(e)
     return f
 
 
